@@ -27,7 +27,7 @@ DEADLINE_S = {'quick': 240, 'thorough': 2400}
 
 
 def budget(tier):
-	return {'quick': 6000, 'thorough': 100000}[tier]
+	return {'quick': 12000, 'thorough': 100000}[tier]
 
 
 def run_case(case, ctx):
